@@ -250,8 +250,8 @@ def normalize(ctx):
     TT = symarray('tt', (3, 3), real=True)        # least-squares solution as returned by lstsq
     det = sp.Matrix(V.tolist()).det()
     pars = {k: sp.Symbol('box_' + k) for k in ('a', 'b', 'c', 'alpha', 'beta', 'gamma')}
-    for left in (True, False):
-        for want_transform in (False, True):
+    for left, want_transform, normal in ((True, False, False), (True, True, False), (False, False, False), (False, True, False), (False, False, True)):
+        if True:
             rec = Rec()
             tests, solved, compared = [], [], []
             class BoxM(PyStub):
@@ -263,6 +263,9 @@ def normalize(ctx):
                 avect = property(lambda self: self._v[0].copy())
                 bvect = property(lambda self: self._v[1].copy())
                 cvect = property(lambda self: self._v[2].copy())
+
+                def is_lammps_norm(self, _n=normal):
+                    return _n
             for _k, _val in pars.items():
                 setattr(BoxM, _k, _val)
             box = BoxM()
@@ -312,6 +315,12 @@ def normalize(ctx):
             ctx.need(len(live) == 1, 'normalize does not reduce to one path')
             tagk = '%s-handed, transform %s' % ('left' if left else 'right', 'requested' if want_transform else 'not requested')
             bs = [c for c in rec.calls if c[0] == 'box_set']
+            if normal:
+                # a cell that is already in LAMMPS form may hold atoms outside it (and a non-zero origin): the result still has every atom inside
+                kinds = [c[0] for c in rec.calls]
+                ctx.ob('NORMALIZE', loc, 'a cell already in LAMMPS form: wrap() is still the last step, so every atom ends inside the cell', bool(kinds) and kinds[-1] == 'wrap' and kinds.count('wrap') == 1 and live[0].ret is system,
+                       str(kinds), node=fn, key='wrap when already normal')
+                continue
             if want_transform:
                 T = TT.T
                 rows_unit = all(any(is_zero(c_ - (sp.sqrt(sum(T[i, k] ** 2 for k in range(3))) - 1), deep=False) or is_zero(c_ - (sum(T[i, k] ** 2 for k in range(3)) - 1), deep=False) for c_ in compared) for i in range(3))
